@@ -3,6 +3,7 @@ package filterstorage
 import (
 	"cmp"
 	"context"
+	"encoding/json"
 	"fmt"
 	"log/slog"
 	"net/url"
@@ -31,6 +32,30 @@ type indexRespFilter struct {
 
 	// Key contains the ID of the filter as a string.
 	Key string `json:"filterKey"`
+}
+
+// type check
+var _ json.Unmarshaler = (*indexRespFilter)(nil)
+
+// UnmarshalJSON implements the [json.Unmarshaler] interface for
+// *indexRespFilter.  It never returns an error for a syntactically valid JSON
+// value:  a value of a wrong type, either the whole object or one of its
+// properties, leaves the corresponding fields empty, so that the entry is
+// reported by [indexRespFilter.validate] and skipped like any other invalid
+// entry instead of making the decoding of the whole index fail.
+func (f *indexRespFilter) UnmarshalJSON(b []byte) (err error) {
+	// Use a type without methods to prevent infinite recursion.
+	type plainFilter indexRespFilter
+
+	v := plainFilter{}
+
+	// Ignore the error, see above.  The properties that have been decoded
+	// successfully are still set.
+	_ = json.Unmarshal(b, &v)
+
+	*f = indexRespFilter(v)
+
+	return nil
 }
 
 // compare is the comparison function for filters in the index.  f and other may
